@@ -184,6 +184,7 @@ def run(ctx):
     model_reqs, model_meta = [], []
     glue_reqs, glue_meta = [], []
     fetch_reqs, fetch_meta = [], []
+    pipe_reqs, pipe_meta = [], []
     try:
         for case in cases:
             import random
@@ -412,8 +413,11 @@ def run(ctx):
               for r in sc.reads:
                   truth_of_read.setdefault((file_of.get(id(r), 0), name_of.get(id(r), r["name"])), (r["sample"], r["hap"]))
                   alns_of.setdefault((file_of.get(id(r), 0), name_of.get(id(r), r["name"]), r["chrom"]), []).append(r)
+              vcf_cache = {}
               for tr in trace:
                   chrom = tr["chrom"] if "chrom" in tr else tr["chromosome"]
+                  pipeline_tie(ctx, sc, run_, tr, chrom, desc, vcf, only_snvs, no_ref, "--ignore-read-groups" in opts, vcf_cache,
+                               pipe_reqs, pipe_meta)
                   posidx = {v.pos: i for i, v in enumerate(sc.variants[chrom])}
                   for rd in tr["all_reads"]:
                       if (rd["source_id"], rd["name"]) not in truth_of_read:
@@ -532,6 +536,34 @@ def run(ctx):
         got = sorted([list(x) for x in got]) if isinstance(got, list) else got
         if got != expect:
             ctx.disagree("c02.fetch (reads of a sample: MultiBamReader.fetch vs Lean C02Bam.fetch) " + what, desc, expect, got)
+    # ---- round 10: the composed stage model (C06 reader -> ReadSet::sort -> len >= 2 -> C07 selection -> solver input) on the
+    # alignments of the generated BAM files against the traced candidates / selected reads / solver columns
+    limit = 70 if ctx.quick else 10 ** 9
+    ctx.dist("pipeline_tie_requests", min(len(pipe_reqs), limit) // 10 * 10)
+    for (desc, what, want), req in list(zip(pipe_meta, pipe_reqs))[:limit]:
+        ans = ctx.model.ask_many([req])[0]
+        if not isinstance(ans, dict) or ans.get("err") is not None:
+            ctx.disagree("c02.pipeline (composed stage model raised / bad input) " + what, desc, "reads", ans if not isinstance(ans, dict) else ans.get("err"))
+            continue
+        if ans.get("cands") != want["cands"]:
+            diff = [x for x in want["cands"] if x not in ans.get("cands", [])][:2], [x for x in ans.get("cands", []) if x not in want["cands"]][:2]
+            ctx.disagree("c02.pipeline candidates (alignments -> C06 reader -> sort -> len >= 2 vs traced candidates) " + what, desc,
+                         {"n": len(want["cands"]), "only_impl": diff[0]}, {"n": len(ans.get("cands", [])), "only_model": diff[1]})
+            continue
+        if ans.get("sel_reads") != want["sel_reads"]:
+            ctx.disagree("c02.pipeline selected reads (model candidates at the traced indices vs traced selected reads) " + what, desc,
+                         len(want["sel_reads"]), len(ans.get("sel_reads") or []))
+        if ans.get("sel_positions") != want["positions"]:
+            ctx.disagree("c02.pipeline solver columns (defaultPositions of the kept reads vs accessible_positions) " + what, desc,
+                         want["positions"][:10], (ans.get("sel_positions") or [])[:10])
+        if len(ans["sel"]) == len(ans["cands"]):
+            ctx.dist("pipeline_tie_selection", "model keeps every candidate")
+            if want["sel"] != ans["sel"]:
+                ctx.disagree("c02.pipeline selection (coverage below the cap everywhere: every candidate is kept) " + what, desc, want["sel"], ans["sel"])
+        else:
+            ctx.dist("pipeline_tie_selection", "model drops reads (tie choices: compared by C07)")
+            if len(want["sel"]) == len(want["cands"]):
+                ctx.disagree("c02.pipeline selection (model drops candidates, whatshap kept all) " + what, desc, len(want["sel"]), ans["sel"])
     # glue requests are small (answers: a few booleans / the kept reads): one at a time as well, for the same reason
     ctx.dist("glue_requests", min(len(glue_reqs), 400) // 50 * 50)
     for (desc, (what, expect, sample)), ans in zip(glue_meta, (ctx.model.ask_many([r])[0] for r in glue_reqs)):
@@ -543,6 +575,65 @@ def run(ctx):
         elif not (isinstance(ans, dict) and ans.get("ok") is True):
             ctx.fail(f"seams A-C: the traced solver input of {sample} does not satisfy the precondition of the solver theorems "
                      f"(Lean rawPreconditionB: {ans})", desc, key="seam-errfree")
+
+
+def bam_sources(bams, chrom):
+    """the alignment records of one contig as pysam delivers them (independent of whatshap), in the shape of `c06.read` / `c02.pipeline`"""
+    import pysam
+    srcs = []
+    for b in bams:
+        with pysam.AlignmentFile(b) as af:
+            rgs = [[g["ID"], g.get("SM")] for g in af.header.to_dict().get("RG", [])]
+            alns = []
+            for a in af.fetch(chrom):
+                alns.append({"name": a.query_name, "flag": a.flag, "mapq": a.mapping_quality, "rg": a.get_tag("RG") if a.has_tag("RG") else None,
+                             "start": a.reference_start, "cigar": [list(x) for x in a.cigartuples] if a.cigartuples else None,
+                             "query": a.query_sequence, "quals": list(a.query_qualities) if a.query_qualities is not None else None,
+                             "bx": "", "hp": -1, "ps": -1})
+            srcs.append({"rgs": rgs, "alns": alns})
+    return srcs
+
+
+def pipeline_tie(ctx, sc, run_, tr, chrom, desc, vcf, only_snvs, no_ref, ignore_rg, cache, reqs, meta):
+    """one `c02.pipeline` request per single-sample trace record: the alignments of the run's BAM files, the heterozygous input
+    variants of the sample, `whatshap phase`'s defaults (mapq 20, overhang 10, no supplementary), the traced per-sample cap, the
+    observed order of the candidates as the hash order of `ReadSet::sort`, the traced selected indices"""
+    fam = tr["family"]
+    if len(fam) != 1 or tr.get("algorithm", "whatshap") != "whatshap":
+        return
+    s = fam[0]
+    if "vcf" not in cache:
+        cache["vcf"] = sim.read_vcf(vcf)
+    _, vsamples, vrecs = cache["vcf"]
+    si = vsamples.index(s)
+    vs = []
+    for rec in vrecs:
+        if rec["chrom"] != chrom:
+            continue
+        if only_snvs and not (len(rec["ref"]) == 1 and all(len(a) == 1 for a in rec["alts"])):
+            continue
+        gt = rec["calls"][si].get("GT")
+        if gt is None or gt[0] is None or None in gt[0] or len(set(gt[0])) < 2:
+            continue
+        vs.append([rec["pos"], rec["ref"], list(rec["alts"])])
+    if ("src", chrom) not in cache:
+        cache[("src", chrom)] = bam_sources(run_["bams"], chrom)
+    cand = tr["candidates"][s]
+    index = {}
+    for i, r in enumerate(cand["reads"]):
+        index.setdefault((r["name"], r["source_id"]), i)
+    sel = [index.get((r["name"], r["source_id"])) for r in cand["selected"]]
+    if None in sel:
+        return
+    reqs.append({"op": "c02.pipeline", "cfg": {"mapq": 20, "duplicates": False, "supplementary": False, "threshold": 100000, "overhang": 10,
+                                                "affine": None},
+                 "sources": cache[("src", chrom)], "sample": None if ignore_rg else s, "variants": vs,
+                 "reference": None if no_ref else sc.contigs[chrom], "cap": tr["max_coverage_per_sample"],
+                 "order": [[r["source_id"], r["name"]] for r in cand["reads"]], "sel": sel, "asis": []})
+    meta.append((desc, f"{chrom} {s}", {"cands": [[r["source_id"], r["name"], [list(v) for v in r["variants"]]] for r in cand["reads"]],
+                                         "sel": sel, "sel_reads": [[list(v) for v in r["variants"]] for r in cand["selected"]],
+                                         "positions": list(tr["accessible_positions"])}))
+    ctx.dist("pipeline_tie", "with reference" if not no_ref else "without reference")
 
 
 def fetch_stream(ctx, sc, runs, case, reqs, meta):
